@@ -31,6 +31,10 @@ pub struct Inner {
     pub fault: Fault,
     /// snapshot of the content length + a copy of data after every completed write
     pub snapshots: Option<Vec<Vec<u8>>>,
+    /// judged after every completed write instead of storing a snapshot: (write index, problem)
+    pub checker: Option<fn(&[u8]) -> Option<(String, String)>>,
+    pub first_problem: Option<(u64, DestOp, String, String)>,
+    pub writes: u64,
 }
 
 #[derive(Clone)]
@@ -45,10 +49,17 @@ impl Dest {
             calls: 0,
             fault: Fault::None,
             snapshots: None,
+            checker: None,
+            first_problem: None,
+            writes: 0,
         })))
     }
     pub fn with_fault(self, f: Fault) -> Self {
         self.0.borrow_mut().fault = f;
+        self
+    }
+    pub fn with_checker(self, f: fn(&[u8]) -> Option<(String, String)>) -> Self {
+        self.0.borrow_mut().checker = Some(f);
         self
     }
     pub fn with_snapshots(self) -> Self {
@@ -89,6 +100,15 @@ impl Write for Dest {
         s.data[at..at + buf.len()].copy_from_slice(buf);
         s.pos += buf.len() as u64;
         s.log.push(DestOp::Write { at: at as u64, len: buf.len() as u64 });
+        s.writes += 1;
+        if let Some(f) = s.checker {
+            if s.first_problem.is_none() {
+                if let Some((sig, detail)) = f(&s.data) {
+                    let k = s.writes - 1;
+                    s.first_problem = Some((k, DestOp::Write { at: at as u64, len: buf.len() as u64 }, sig, detail));
+                }
+            }
+        }
         if s.snapshots.is_some() {
             let snap = s.data.clone();
             s.snapshots.as_mut().unwrap().push(snap);
